@@ -109,10 +109,15 @@ pub fn family() -> Vec<(Vec<String>, Vec<(String, String)>, Vec<RV>)> {
         ("x.liquid".to_string(), "[ext {{ k }}]".to_string()),
         ("card.liquid".to_string(), "[card {{ k }}]".to_string()),
     ];
+    // more distinct partials than any small cache bound
+    let mut partials = partials;
+    for i in 1..=100 {
+        partials.push((format!("m{i}"), format!("<m{i} {{{{ k }}}}>")));
+    }
     let data = vec![
-        obj(vec![("arr", RV::Arr(vec![RV::Int(1), RV::Int(2), RV::Int(3)])), ("stop", RV::Int(2)), ("n", RV::Int(3)), ("name", st("Tobi")), ("fail", RV::Bool(false)), ("which", st("p"))]),
-        obj(vec![("arr", RV::Arr(vec![RV::Int(3), RV::Int(3), RV::Int(1)])), ("stop", RV::Int(9)), ("n", RV::Int(5)), ("name", st("Ana")), ("fail", RV::Bool(true)), ("which", st("q"))]),
-        obj(vec![("arr", RV::Arr(vec![])), ("stop", RV::Int(1)), ("n", RV::Int(0)), ("name", st("")), ("fail", RV::Bool(false)), ("which", st("missing"))]),
+        obj(vec![("arr", RV::Arr(vec![RV::Int(1), RV::Int(2), RV::Int(3)])), ("stop", RV::Int(2)), ("n", RV::Int(3)), ("name", st("Tobi")), ("fail", RV::Bool(false)), ("which", st("p")), ("dyn", st("card")), ("big", RV::Int(1200)), ("many", RV::Int(100))]),
+        obj(vec![("arr", RV::Arr(vec![RV::Int(3), RV::Int(3), RV::Int(1)])), ("stop", RV::Int(9)), ("n", RV::Int(5)), ("name", st("Ana")), ("fail", RV::Bool(true)), ("which", st("q")), ("dyn", st("x")), ("big", RV::Int(3)), ("many", RV::Int(70))]),
+        obj(vec![("arr", RV::Arr(vec![])), ("stop", RV::Int(1)), ("n", RV::Int(0)), ("name", st("")), ("fail", RV::Bool(false)), ("which", st("missing")), ("dyn", st("x.liquid")), ("big", RV::Int(0)), ("many", RV::Int(3))]),
     ];
     let sets: Vec<Vec<&str>> = vec![
         vec![
@@ -134,6 +139,14 @@ pub fn family() -> Vec<(Vec<String>, Vec<(String, String)>, Vec<RV>)> {
             "{% for i in arr %}{% ifchanged %}{{ i }}{% endifchanged %}{% endfor %}",
             "{% tablerow i in arr cols:2 %}{% cycle 'o', 'e' %}{{ i }}{% endtablerow %}{% for i in arr %}{% if i == stop %}{% continue %}{% endif %}{% cycle 'o', 'e' %}{% endfor %}",
             "{% for i in arr %}{% capture c %}{{ c }}{{ i }}{% endcapture %}{% if i == stop %}{% break %}{% endif %}{% endfor %}{{ c }}{{ nope.nope }}",
+        ],
+        // size boundaries and per-node state: a dynamic name that needs the `.liquid` fallback for
+        // one datum and not for another; an output of 12 KB followed by small ones; more than 64
+        // distinct partials in one render
+        vec![
+            "{% render dyn, k: n %}|{% render dyn, k: 2 %}",
+            "{% for i in (1..big) %}0123456789{% endfor %}|{{ name }}",
+            "{% for i in (1..many) %}{% capture nm %}m{{ i }}{% endcapture %}{% include nm k: i %}{% render nm, k: i %}{% endfor %}",
         ],
     ];
     sets.into_iter().map(|t| (t.into_iter().map(String::from).collect(), partials.clone(), data.clone())).collect()
